@@ -16,6 +16,8 @@ class LoopMixin(object):
             raise AnalysisError("for/else not modelled (%s:%d)" % (
                 frame.func.module, node.lineno))
         def go(s, it):
+            if it[0] == "dbcur" and (it, "#result") in s.heap:
+                it = s.heap[(it, "#result")]
             if it[0] == "cursor":
                 it = ("rows", it[1])   # iterating a cursor = iterating its rows
             if it[0] == "const" and isinstance(it[1], tuple):
